@@ -282,7 +282,7 @@ func (p *provEngine) compute(v ssa.Value) *sliceProv {
 			}
 			if i < len(x.Block().Preds) {
 				pred := x.Block().Preds[i]
-				if why := specEmptyAt(pred, x.Block()); why != "" {
+				if why := specEmptyAt(pred, x.Block()); why != "" && p.sameListAsOtherEdges(x, i, ep) {
 					bypass = append(bypass, why+" at "+p.c.Pos(blockPos(pred)))
 					bypass = append(bypass, ep.SpecBypass...)
 					continue // does not weaken the guards: no filter was requested
@@ -297,7 +297,7 @@ func (p *provEngine) compute(v ssa.Value) *sliceProv {
 						}
 						if len(lost) > 0 {
 							sort.Strings(lost)
-							fallback = append(fallback, fmt.Sprintf("falls back to a less filtered list (without %v) when the filter result is empty, at %s", lost, p.c.Pos(blockPos(pred))))
+							fallback = append(fallback, fmt.Sprintf("falls back to a less filtered list (without %v) when the filter result is empty, in {%s} at %s", lost, rshort(pred.Parent()), p.c.Pos(blockPos(pred))))
 							fallback = append(fallback, ep.ResultFallback...)
 							continue // reported on its own; the guards describe the intended filtering
 						}
@@ -363,6 +363,9 @@ func (p *provEngine) compute(v ssa.Value) *sliceProv {
 					g[k] = true
 				}
 				ep := &sliceProv{Root: sp.Root, Fresh: out.Fresh, Guards: g, Mixed: sp.Mixed}
+				if os.Getenv("OLLACHECK_DEBUG") != "" {
+					fmt.Fprintln(os.Stderr, "DBG append in", fname(x.Parent()), p.c.Pos(x.Pos()), "src", src, "root", sp.Root, "base.root", base.Root, "base.empty", base.Empty)
+				}
 				if out.Empty && out.Root == nil {
 					ep.Fresh = base.Fresh
 					out = *ep
@@ -722,6 +725,41 @@ func (p *provEngine) invokeSummary(cc *ssa.CallCommon) *sliceProv {
 	return out
 }
 
+// sameListAsOtherEdges: the value arriving on edge i of phi x is (a less filtered version of) the list the other edges
+// carry — its root is a parameter or the root of another edge, and it brings no source of its own. Only then is an
+// edge taken under a "nothing to filter by" fact a bypass; a list fetched from somewhere else under an `err == nil`
+// or `svc != nil` fact is a substitution and has to be joined like any other edge.
+func (p *provEngine) sameListAsOtherEdges(x *ssa.Phi, i int, ep *sliceProv) bool {
+	if ep.Empty && ep.Root == nil {
+		return true
+	}
+	known := map[ssa.Value]bool{}
+	for j, e := range x.Edges {
+		if j == i {
+			continue
+		}
+		op := p.of(e)
+		if op == nil || op.Unknown != "" {
+			continue
+		}
+		if op.Root != nil {
+			known[op.Root] = true
+		}
+		for _, m := range op.Mixed {
+			known[m] = true
+		}
+	}
+	if _, isParam := ep.Root.(*ssa.Parameter); !isParam && !known[ep.Root] {
+		return false
+	}
+	for _, m := range ep.Mixed {
+		if !known[m] && m != ep.Root {
+			return false
+		}
+	}
+	return true
+}
+
 func joinProv(a, b *sliceProv) *sliceProv {
 	if a.Empty && a.Root == nil {
 		cp := *b
@@ -764,6 +802,9 @@ func (p *provEngine) summary(fn *ssa.Function, depth int) *fnSliceSummary {
 		}
 		rv := retResult(ret, 0)
 		pr := sub.of(rv)
+		if os.Getenv("OLLACHECK_DEBUG") != "" && pr != nil {
+			fmt.Fprintln(os.Stderr, "DBG summary", fname(fn), "ret", p.c.Pos(ret.Pos()), "root", pr.Root, "unknown", pr.Unknown, "mixed", pr.Mixed, "guards", sortedKeys(pr.Guards), "empty", pr.Empty)
+		}
 		if pr == nil || pr.Unknown != "" {
 			s.ParamIdx = -1
 			s.Reason = "unanalysable return"
